@@ -16,19 +16,38 @@ static Json::Value genC17(Rng& rng) {
   for (auto& c : plan["world"]["cgroups"])
     if (rng.chance(0.3)) {
       for (const char* ns : {"trusted.", "user."}) {
+        // counters left by an earlier oomd - or, for user.*, by whoever owns
+        // the cgroup: large, at the 32-bit edge, or not a number at all
+        auto val = [&]() -> std::string {
+          if (rng.chance(0.25))
+            return rng.pick<std::string>(
+                {"2147483647", "2147483648", "4294967296", "99999999999",
+                 "9223372036854775807", "abc", "12abc", "", "007", "-3"});
+          return std::to_string(rng.pick<int64_t>({0, 1, 7, 41, 1000, 999999999}));
+        };
         if (rng.chance(0.7))
-          c["xattrs"][std::string(ns) + "oomd_ooms"] =
-              std::to_string(rng.pick<int64_t>({0, 1, 41, 999999999}));
+          c["xattrs"][std::string(ns) + "oomd_ooms"] = val();
         if (rng.chance(0.7))
-          c["xattrs"][std::string(ns) + "oomd_kill"] =
-              std::to_string(rng.pick<int64_t>({0, 7, 1000, 999999999}));
+          c["xattrs"][std::string(ns) + "oomd_kill"] = val();
       }
     }
   return plan;
 }
 
+// "reading any pre-existing values as integers": the leading integer by C
+// rules, 0 if there is none, clamped to 64 bits
 static int64_t toInt(const std::string& s) {
-  return s.empty() ? 0 : atoll(s.c_str());
+  if (s.empty())
+    return 0;
+  errno = 0;
+  long long v = strtoll(s.c_str(), nullptr, 10);
+  return v;
+}
+static int64_t satAdd(int64_t a, int64_t b) {
+  int64_t r;
+  if (__builtin_add_overflow(a, b, &r))
+    return b > 0 ? INT64_MAX : INT64_MIN;
+  return r;
 }
 
 static void runC17() {
@@ -111,7 +130,7 @@ static void runC17() {
         else if (e.a == "user.oomd_kill_uuid")
           uuidU = uuidIndex(raw);
         else if (e.a == "trusted.oomd_ooms" || e.a == "user.oomd_ooms") {
-          int64_t want = toInt(prevOf(a.inc, e.a)) + 1;
+          int64_t want = satAdd(toInt(prevOf(a.inc, e.a)), 1);
           if (toInt(raw) != want) {
             violate("C17.ooms-plus-one",
                     "tick " + std::to_string(inv.tick) + " /" + a.rel + " " +
@@ -124,7 +143,7 @@ static void runC17() {
           int64_t n = okSignals;
           if (kernel && a.kernel)
             n = pidsCurrentRead > 0 ? pidsCurrentRead : 1;
-          int64_t want = toInt(prevOf(a.inc, e.a)) + n;
+          int64_t want = satAdd(toInt(prevOf(a.inc, e.a)), n);
           if (toInt(raw) != want) {
             violate("C17.kill-count",
                     "tick " + std::to_string(inv.tick) + " /" + a.rel + " " +
